@@ -162,6 +162,23 @@ pub fn check_extraction<L: SimLang, N: Analysis<L>>(s: &mut Sess<L, N>, kind: Si
             }
             invs.push(AppliedId::new(id, m));
         }
+        let mut lazy_next_fresh = false;
+        if !cls_slots.is_empty() {
+            // arguments spelled like the numeric names that stored shapes use internally ($0, $1, ..),
+            // in order or reversed
+            let k = cls_slots.len();
+            let rev = rng.chance(1, 2);
+            let mut m = SlotMap::new();
+            for (i, x) in cls_slots.iter().enumerate() {
+                m.insert(*x, Slot::numeric(if rev { (k - 1 - i) as u32 } else { i as u32 }));
+            }
+            invs.push(AppliedId::new(id, m));
+            out.bump("invocations_with_shape_names");
+            // an argument spelled like the very next fresh slot ($f<n> with n = the thread's counter):
+            // the names the extractor invents during this call must stay apart from it
+            // (built lazily, right before it is used: the other invocations draw fresh slots too)
+            lazy_next_fresh = rng.chance(1, 3);
+        }
         let finite = oracle.get(&id).map(|c| *c < u64::MAX).unwrap_or(false);
         if !finite {
             // the class contains no finite term: out of the property's scope
@@ -182,7 +199,29 @@ pub fn check_extraction<L: SimLang, N: Analysis<L>>(s: &mut Sess<L, N>, kind: Si
                 out.bump("invocations_with_a_shown_bound_name");
             }
         }
+        let mut invs: Vec<Option<AppliedId>> = invs.into_iter().map(Some).collect();
+        if lazy_next_fresh && finite {
+            invs.insert(rng.below(invs.len() + 1), None);
+        }
         for inv in invs {
+            let inv = match inv {
+                Some(i) => i,
+                None => {
+                    let probe = Slot::fresh().to_string();
+                    let Some(nxt) = probe.strip_prefix("$f").and_then(|d| d.parse::<u64>().ok()) else { continue };
+                    if nxt + 1 >= (1 << 30) {
+                        continue;
+                    }
+                    let arg = Slot::named(&format!("f{}", nxt + 1));
+                    let mut m = SlotMap::new();
+                    for x in &cls_slots {
+                        m.insert(*x, *x);
+                    }
+                    m.insert(cls_slots[rng.below(cls_slots.len())], arg);
+                    out.bump("invocations_with_the_next_fresh_name");
+                    AppliedId::new(id, m)
+                }
+            };
             let best = ex.get_best_cost::<N>(&inv);
             if Some(&best) != oracle.get(&id) {
                 return Some(viol("best_cost_minimal", format!("class {id:?}: get_best_cost = {best}, value iteration over enodes gives {:?} ({kind:?})", oracle.get(&id)), at));
